@@ -28,6 +28,7 @@ func (P) Rule() string {
 		"SetOption calls of the six logging options; export, export-and-reset, reset; per-case op weights) run step by step on one har.Logger, or " +
 		"(b) a block of `seq` words: EVERY word over the 9-letter alphabet {req a,b,c; res a,b,c; export; export-and-reset; reset} up to length 5 (quick) / 7 (thorough), every word with a failing call " +
 		"over the 15-letter alphabet (+ failing response a,b,c; failing request a,b,c) up to length 4 / 5 and, up to renaming of the IDs, of length 5 / 6, each run on a fresh Logger, or " +
+		"(b') a `bulk N i…` history (N = 255..4098 requests, all but 1-17 completed, one export-and-reset, then a duplicate and a response for every entry left), or " +
 		"(c) a concurrent run (2-8 goroutines; random programs over own/shared IDs with slow and failing bodies, or duplicate storms: every goroutine calls about the same ID, held in its body read " +
 		"until all are in flight) checked for linearisability, the linearisation replayed by the model; " +
 		"distinct by hash of the op list; non-trivial when some export-and-reset returned at least one completed entry while keeping at least one pending entry"
